@@ -30,6 +30,8 @@ class Dim:
         self.minimum = minimum
         self.parent, self.start = parent, start   # slice of another Dim
         _DIMS[self.k] = self
+        from . import sym as _sym
+        _sym.INDEX_SYMBOLS.add(self.k)
 
     def __repr__(self):
         return f"Dim({self.name})"
